@@ -444,6 +444,19 @@ PROPS = {
         "level": "proof",
         "level_prefix": "Partial proof -- contracts discharged without bound on the mechanisms named below, not the whole statement (bounded stand-ins and what is left out are listed): ",
         "units": ["queries", "sections", "streamcfg"],
+        "extra_searches": [
+            {"bin": "c15_search_dgram_scripts", "crate": "replay_client", "release": True,
+             "what": "the datagram transport under tokio's virtual clock against a scripted in-memory peer: for each of the two transmissions up to two "
+                     "actions out of {stray reply with another ID, right ID and another question, header-only NOERROR, header-only SERVFAIL, garbage, the "
+                     "query echoed back, the good answer} at 10 %, 50 % or 99.9 % of the read timeout -- 53 824 scripts: the request completes inside "
+                     "(1 + max_retries) x read_timeout with at most 1 + max_retries transmissions; a response handed out has the request's ID and repeats its "
+                     "question or is a header-only error reply; the request succeeds exactly when something that answers it arrives in a window that is "
+                     "reached -- on the real crate (in-memory network written by a round-7 seeding sub-agent)"},
+            {"bin": "c15_search_truncation_fallback", "crate": "replay_client", "release": True,
+             "what": "dgram_stream against an in-memory datagram peer and stream server: for all 16 RCODE values and four ways a truncated datagram "
+                     "answer can arrive (at once, after a stray reply, on the retry, with a partial answer section) the caller gets the stream's complete "
+                     "answer from exactly one stream request; a datagram answer that is not truncated never contacts the stream -- on the real crate"},
+        ],
         "replays": [
             {"bin": "d53_stream_response_timeout", "crate": "replay_net", "finding": "D53"},
             {"bin": "d54_stream_unrelated_replies", "crate": "replay_net", "finding": "D54"},
@@ -477,8 +490,9 @@ PROPS = {
                        "set_response_timeout(t) the timeout in effect, the one installed for single-response requests and the streaming one are all t trimmed "
                        "to 1 ms..600 s (this contract exposed D53).",
         "not_covered": "Everything else about delivery: question-by-question equality inside is_answer rests on Question's == (names: C04), the header-only error reply rule of the transports, exactly-once completion, "
-                       "timeouts, retries, reordering/duplication/loss, truncation fallback, the datagram/redundant/load-balancing "
-                       "transports (async tasks over tokio; schedules are outside contract-based verification).",
+                       "the redundant and load-balancing transports, multi_stream's reconnection logic, real sockets and real-time scheduling (async tasks "
+                       "over tokio; schedules are outside contract-based verification -- the datagram transport's receive loop and the truncation fallback "
+                       "are explored natively under a virtual clock, see the searches, not proved).",
         "assumptions": ["core::cmp::min is specified through vstd's OrdSpec"],
     },
     "C12": {
